@@ -105,6 +105,14 @@ pub fn gen_c01(ctx: &Ctx, rng: &mut Rng, out: &mut Vec<String>) {
             if !g.rng.chance(1, 3) { pos += 3; }
             recs.push((contig.to_string(), pos, record(&mut g, &eff_assign, [70, 12, 8, 10], force, mem)));
         }
+        // CLI cases: the first record is monomorphic REF with one selected sample missing — the VCF writer of the harness spells
+        // such a record without ALT allele (`.`): it must be skipped like any other incomplete record
+        if !mem && i % 2 == 0 {
+            if let Some(sel) = eff_assign.iter().position(|a| a.is_some()) {
+                let mut g: Vec<String> = vec!["0/0".to_string(); ncols]; g[sel] = if i % 4 == 0 { "./.".into() } else { ".".into() };
+                recs[0].2 = g;
+            }
+        }
         let c = cols(ncols).join(",");
         if mem { out.push(format!("c01.mem\t{c}\t{sl}\tN\t{}", records_str(&recs))); }
         else {
